@@ -1100,7 +1100,7 @@ fn elf_object(sections: &[(&str, &[u8])]) -> Vec<u8> {
         out.push(0);
     }
     let shoff = out.len() as u64;
-    let mut sh = |name: u32, ty: u32, off: u64, size: u64| {
+    let sh = |name: u32, ty: u32, off: u64, size: u64| {
         let mut h = Vec::new();
         h.extend_from_slice(&name.to_le_bytes());
         h.extend_from_slice(&ty.to_le_bytes());
@@ -1300,6 +1300,57 @@ pub fn handle(op: &str, a: &[&str]) -> Option<String> {
             let want = naive_get_address(&c, &sec, base, idx);
             let o = if want != r.ok() { Some(format!("address-differs expected={want:?}")) } else { None };
             Some(with_oracle(t, o))
+        }
+        ("lists-copyrel", [c, dwo_root, skel_root, addr]) => {
+            // a split unit (file type Dwo, no .debug_addr) takes the relocated attributes of its
+            // skeleton unit (main file)
+            use gimli::read::Dwarf;
+            use gimli::{DwarfFileType, SectionId};
+            let c = cfg(c)?;
+            let (dwo_root, skel_root) = (parse_attrs(dwo_root)?, parse_attrs(skel_root)?);
+            let addr = unhex(addr)?;
+            let e = c.endian();
+            let (sa, si) = build_unit(&c, false, &skel_root, &[])?;
+            let (da, di) = build_unit(&c, true, &dwo_root, &[])?;
+            let load = |abbrev: &'_ [u8], info: &'_ [u8], addr: &'_ [u8]| -> Option<gimli::DwarfSections<Vec<u8>>> {
+                gimli::DwarfSections::load(|id| -> Result<Vec<u8>, ()> {
+                    Ok(match id {
+                        SectionId::DebugAbbrev => abbrev.to_vec(),
+                        SectionId::DebugInfo => info.to_vec(),
+                        SectionId::DebugAddr => addr.to_vec(),
+                        _ => vec![],
+                    })
+                })
+                .ok()
+            };
+            let skel_owned = load(&sa, &si, &addr)?;
+            let dwo_owned = load(&da, &di, &[])?;
+            let skel_dwarf = skel_owned.borrow(|s| EndianSlice::new(&s[..], e));
+            let mut dwo_dwarf = dwo_owned.borrow(|s| EndianSlice::new(&s[..], e));
+            dwo_dwarf.file_type = DwarfFileType::Dwo;
+            fn unit_of<'a>(d: &Dwarf<R<'a>>) -> Result<gimli::read::Unit<R<'a>>, String> {
+                let h = match d.units().next() {
+                    Ok(Some(h)) => h,
+                    Ok(None) => return Err("err NoUnit".into()),
+                    Err(e) => return Err(format!("err {}", rerr(&e))),
+                };
+                d.unit(h).map_err(|e| format!("err {}", rerr(&e)))
+            }
+            let skel = match unit_of(&skel_dwarf) {
+                Ok(u) => u,
+                Err(t) => return Some(t),
+            };
+            let mut split = match unit_of(&dwo_dwarf) {
+                Ok(u) => u,
+                Err(t) => return Some(t),
+            };
+            let before = (split.rnglists_base.0, split.loclists_base.0);
+            split.copy_relocated_attributes(&skel);
+            let got = (split.low_pc, split.addr_base.0, split.rnglists_base.0, split.loclists_base.0);
+            // oracle: low_pc and addr_base always come from the skeleton, the ranges base only before DWARF 5
+            let want = (skel.low_pc, skel.addr_base.0, if c.enc.version < 5 { skel.rnglists_base.0 } else { before.0 }, before.1);
+            let o = if got != want { Some(format!("copy-relocated-differs expected={want:?}")) } else { None };
+            Some(with_oracle(format!("ok {},{},{},{}", got.0, got.1, got.2, got.3), o))
         }
         ("lists-dd", [c, dwo, root, die, addr, ranges, rnglists, loc, loclists]) => {
             // same reply as `lists-die`; additionally the ranges llvm-dwarfdump resolves for the
@@ -1685,6 +1736,20 @@ fn gen_die(g: &mut G, emit: &mut dyn FnMut(String)) {
         let d = die[g.rng.below(die.len() as u64) as usize];
         die.push(d);
     }
+    if g.rng.chance(1, 4) {
+        // split unit + skeleton unit: the root attributes generated above play the skeleton
+        let mut dwo_root: Vec<(AName, AVal)> = Vec::new();
+        if g.rng.chance(1, 3) {
+            dwo_root.push((AName::Low, AVal::Addr(g.address(s))));
+        }
+        if g.rng.chance(1, 3) {
+            dwo_root.push((if v5 { AName::RBase } else { AName::GRBase }, AVal::Sec(g.rng.below(64))));
+        }
+        if g.rng.chance(1, 3) {
+            dwo_root.push((AName::LBase, AVal::Sec(g.rng.below(64))));
+        }
+        emit(format!("lists-copyrel {} {} {} {}", c.text(), attrs_text(&dwo_root), attrs_text(&root), hex(&addr)));
+    }
     let (ranges, rnglists) = if v5 { (g.rng.bytes_below(5), rsec) } else { (rsec, g.rng.bytes_below(5)) };
     let (loc, loclists) = if v5 { (g.rng.bytes_below(5), lsec) } else { (lsec, g.rng.bytes_below(5)) };
     emit(format!(
@@ -1831,7 +1896,7 @@ fn gen_dd(g: &mut G, emit: &mut dyn FnMut(String)) {
         out
     };
     // (section bytes, attribute value of the child DIE)
-    let mut build = |g: &mut G, k: Kind| -> Option<(Vec<u8>, AVal, u64)> {
+    let build = |g: &mut G, k: Kind| -> Option<(Vec<u8>, AVal, u64)> {
         let nl = 1 + g.rng.below(3) as usize;
         let lists: Vec<Vec<Ent>> = (0..nl).map(|_| mk_list(g, k)).collect();
         let pick = g.rng.below(nl as u64) as usize;
@@ -1917,13 +1982,13 @@ pub fn gen(ctx: &Ctx, emit: &mut dyn FnMut(String)) {
     {
         // corpus-style lists cross-checked with llvm-dwarfdump (one process per case)
         let mut rng = ctx.rng(80);
-        for _ in 0..ctx.n(8, 400) {
+        for _ in 0..ctx.n(8, 150) {
             let mut g = G { rng: &mut rng };
             gen_dd(&mut g, emit);
         }
     }
     let mut rng = ctx.rng(8);
-    let n = ctx.n(9000, 400_000);
+    let n = ctx.n(9000, 100_000);
     for i in 0..n {
         let mut g = G { rng: &mut rng };
         let c = g.cfg();
